@@ -40,6 +40,8 @@ func TestVerif(t *testing.T) {
 		verifC10Group(t, r, out)
 	case "C12":
 		verifC12(t, r, out)
+	case "C17":
+		verifC17(t, r, out)
 	case "C18":
 		verifC18(t, r, out)
 	case "C20":
